@@ -202,6 +202,8 @@ def run_create(case):
         os.makedirs(os.path.join(sbx, "o"))
         os.makedirs(os.path.join(sbx, "elsewhere"))
         out = os.path.join(sbx, "o", case.get("outname", "m.torrent"))
+        if case.get("out_inside") and os.path.isdir(root):      # the metafile is written INTO the content directory
+            out = os.path.join(root, "zz-new-out.torrent")
         if case.get("cwd_mode") == "elsewhere":
             case = dict(case, cwd_dir=os.path.join(sbx, "elsewhere"))
         with _Env(case, root) as env:
@@ -214,7 +216,7 @@ def run_create(case):
                "single": bool(tree.get("single")), "name": hexs(tree["name"]),
                "outer": case.get("outer", ""), "creator": case["creator"], "status": status,
                "disk": [{"path": [hexs(c) for c in comps], "size": sz}
-                        for comps, sz in alpha.disk_files(root)]}
+                        for comps, sz in alpha.disk_files(root) if comps != ["zz-new-out.torrent"]]}
         if status == "ok" and os.path.isfile(out):
             with open(out, "rb") as fh:
                 raw = fh.read()
